@@ -76,7 +76,9 @@ def gen_process_item(w, m):
         return None
     model = w.choice(models)
     steps = w.choice([1, 2, 3, 4, 5, 6, 8, 10, 12]) if w.random() < 0.93 else w.choice([30, 60])
-    dt = wg.rnd(w, 0.05, 0.5, 3) if steps <= 12 else wg.rnd(w, 0.02, 0.08, 3)
+    if model.startswith("ideal") and w.random() < 0.06:
+        steps = w.choice([101, 300, 600, 600])          # long models are cheap for the ideal generators; size thresholds exist in real code
+    dt = wg.rnd(w, 0.05, 0.5, 3) if steps <= 12 else (wg.rnd(w, 0.02, 0.08, 3) if steps <= 60 else wg.rnd(w, 0.002, 0.008, 4))
     item = {"kind": "process", "model": model, "membrane": m["dir"], "mixture": m["mixture"], "steps": steps, "dt": dt,
             "calc": "UNIQUAC" if w.random() < 0.15 else "NRTL"}
     if w.random() < 0.2:
@@ -109,7 +111,7 @@ def gen_process_item(w, m):
                                      [wg.kg_to_units(item["init_perm"][1][0], u, wg.MW[c2]), u]]
         _orders(w, item, multi, s.get("n_points", 99))
     item["cond"] = _cond(w, T, comp, steps, dt, noniso=model.endswith("noniso"))
-    if w.random() < 0.12:
+    if w.random() < (0.5 if steps > 100 else 0.12):
         # the same model with its permeances re-expressed in other units through the public
         # Permeance.convert (a ProcessModel is a plain data class; units are a persisted column)
         item["reexpress"] = w.choice(["GPU", "SI"])
@@ -176,6 +178,8 @@ def gen_curve_item(w, m):
         item["fluxes"] = [[wg.logu(w, 1e-9, 1e3, 9), wg.logu(w, 1e-9, 1e3, 9)] for _ in comps]
         mode = w.choice(["none", "none", "pp", "pt"])
         item["pt"] = round(T - w.uniform(40, 80), 2) if mode == "pt" else None
+        if mode == "pt" and w.random() < 0.3:
+            item["pt"] = w.choice([77.15, 194.65, 150.0])          # liquid-nitrogen / dry-ice traps
         item["pp"] = wg.logu(w, 1e-3, 1.0, 4) if mode == "pp" else None
     else:
         item["units"] = w.choice(["kg/(m2*h*kPa)", "GPU", "SI", None])
@@ -251,7 +255,7 @@ def gen_world(w):
 
 def _est_bytes(item):
     if item["kind"] == "process":
-        return 320 + 250 * item["steps"] + 700
+        return 320 + 250 * min(item["steps"], 40) + 700
     return 1200
 
 
@@ -293,7 +297,7 @@ def gen_plan(verif_seed, run, deep=False):
     ops = []
     saves = {"process": [], "curve": [], "fn": [], "cond": []}
     weights = [("save_process", 34), ("load_process", 20), ("save_curve", 7), ("load_curve", 9), ("save_fn", 6), ("load_fn", 7),
-               ("save_cond", 3), ("load_cond", 4), ("load_membrane", 3), ("restart", 7), ("delete_process", 4)]
+               ("save_cond", 3), ("load_cond", 4), ("load_membrane", 3), ("restart", 7), ("delete_process", 4), ("set_fits", 3)]
     if long_history:
         weights = [(k, (90 if k == "save_process" else wt)) for k, wt in weights]
     # swarm: drop some op kinds for this run
@@ -321,7 +325,11 @@ def gen_plan(verif_seed, run, deep=False):
         elif k == "save_curve":
             if not idx["curve"]:
                 continue
-            op["obj"] = o.choice(idx["curve"])
+            loads = [x for x in ops if x["op"] == "load_curve"]
+            if loads and o.random() < 0.25:
+                op["from_load"] = o.choice(loads)["id"]
+            else:
+                op["obj"] = o.choice(idx["curve"])
             if o.random() < 0.4:
                 d = o.choice(dirs)
                 op["file"] = "%s/diffusion_curve_sets/saved_%d.csv" % (d, n_file)
@@ -343,7 +351,11 @@ def gen_plan(verif_seed, run, deep=False):
             if "membrane_dir" in src and o.random() < 0.5:
                 op["via_membrane"] = src["membrane_dir"]
         elif k == "save_fn":
-            op["obj"] = o.choice(idx["fn"])
+            loads = [x for x in ops if x["op"] == "load_fn"]
+            if loads and o.random() < 0.25:
+                op["from_load"] = o.choice(loads)["id"]       # save again what was loaded (possibly in the other storage mode)
+            else:
+                op["obj"] = o.choice(idx["fn"])
             op["safe"] = o.random() < 0.5
             op["file"] = "files/fn_%d.pv" % n_file
             n_file += 1
@@ -356,7 +368,11 @@ def gen_plan(verif_seed, run, deep=False):
             op["of"] = o.choice(saves["fn"])
             op["same_mode"] = o.random() < 0.9
         elif k == "save_cond":
-            op["obj"] = o.choice(idx["cond"])
+            loads = [x for x in ops if x["op"] == "load_cond"]
+            if loads and o.random() < 0.25:
+                op["from_load"] = o.choice(loads)["id"]
+            else:
+                op["obj"] = o.choice(idx["cond"])
             op["file"] = "files/cond_%d.json" % n_file
             n_file += 1
             saves["cond"].append(op["id"])
@@ -372,6 +388,12 @@ def gen_plan(verif_seed, run, deep=False):
             if not saves["process"]:
                 continue
             op["of"] = o.choice(saves["process"])
+        elif k == "set_fits":
+            # the user assigns (other) fitted functions to a model, typically between two saves of it
+            if len(idx["fn"]) < 1 or not saves["process"]:
+                continue
+            op["obj"] = ops_by_id(ops, o.choice(saves["process"]))["obj"]
+            op["fits"] = [o.choice(idx["fn"]), o.choice(idx["fn"])]
         # clock
         if k == "save_process":
             earlier = [s for s in saves["process"] if s != op["id"]]
@@ -602,7 +624,7 @@ def execute(ctx, plan, stats=None):
             if fault:
                 fname = fault["kind"] if fault["kind"] != "crash" else ("crash-call" if "at_call" in fault else "crash-byte")
                 st["faults_configured"][fname] = st["faults_configured"].get(fname, 0) + 1
-            payload = {kk: v for kk, v in op.items() if kk in ("op", "obj", "dir", "safe", "file", "as_str", "via_membrane")}
+            payload = {kk: v for kk, v in op.items() if kk in ("op", "obj", "dir", "safe", "file", "as_str", "via_membrane", "id", "from_load", "fits")}
             expect = None
             if k.startswith("load") and k != "load_membrane" and ops_by_id(ops, op["of"]) is None:
                 rec["skipped"] = "referenced op removed"
